@@ -236,7 +236,7 @@ def c12(raw, outp):
                             k = round((d - lo[c]) / step)
                             dist = abs(d - (lo[c] + k * step))
                             worst_grid = max(worst_grid, floor_u(dist, unit))
-            rec = {"e": "Explicit", "sc": sc["sc"], "q": q, "representable": sc["representable"], "tiles_ok": oks, "methods": [t["m"] for t in tiles],
+            rec = {"e": "Explicit", "sc": sc["sc"], "q": q, "representable": sc["representable"], "tiles_ok": oks, "tiles_enc": [bool(t["eok"]) for t in tiles], "methods": [t["m"] for t in tiles],
                    "obs": obs, "worst_grid_u": worst_grid, "allow_u": ceil_u(allow, unit), "params_exact": params_exact}
             out.write(json.dumps(rec) + "\n")
             n += 1
